@@ -156,6 +156,12 @@ def forwarding(rep, fns):
             ok = ok and "bind(" in fn_txt and re.search(r",\$0,(std::placeholders::)?_1\)$", fn_txt.replace(" ", "")) is not None and args[1:] == ["$1"]
         else:
             ok = ok and args[1:] == ["$0"]
+        # every further parameter (colour converter, sampler, matrix, fill value, function object) reaches the functor
+        first_extra = 1 if shape == "A" else 2
+        missing = ["$%d (%s)" % (i, f["params"][i]["name"]) for i in range(first_extra, len(ptypes)) if ("$%d" % i) not in fn_txt]
+        if missing:
+            ok = False
+            det["parameters_not_forwarded"] = missing
         if ok:
             rep.ok("D1-forward", key + ":" + str(len(ptypes)), det)
         else:
